@@ -29,10 +29,10 @@ type Case struct {
 	Settle       int // extra ticks (with scheduling freedom, no new requests) before the final drain
 	CrashBetween int // crash between steps with probability 1/CrashBetween
 	ExtraTicks   int // after each step's tick, 0..ExtraTicks further ticks at the same clock value
-	CrashAt      int  // 1-based crash opportunity at which the kernel crashes (0 = none)
+	CrashAt      int // 1-based crash opportunity at which the kernel crashes (0 = none)
 	scaled       bool
 	StopOnCrash  bool // end the timeline as soon as the kernel has crashed (crash-point enumeration)
-	Prime        int // up to Prime promises are created (deterministically, no faults) before the timeline starts
+	Prime        int  // up to Prime promises are created (deterministically, no faults) before the timeline starts
 	Setup        func(s *Sim)
 	PerStep      func(s *Sim, step int)
 }
